@@ -439,7 +439,10 @@ func (c *seqCase) setDL(e, side int, tg dlTarget, t time.Time) {
 		name = "SetDeadline"
 		err = c.p[e].SetDeadline(t)
 		c.rdl[e], c.wdl[e] = t, t
-		c.rdlUnk[e], c.wdlUnk[e] = err != nil, err != nil
+		// SetDeadline sets both deadlines; an error it reports belongs to a direction that is closed, and the
+		// direction that is still open has its deadline set all the same (a caller that half-closed one side keeps
+		// using deadlines on the other)
+		c.rdlUnk[e], c.wdlUnk[e] = err != nil && c.closed[1-e] != 0, err != nil && c.closed[e] != 0
 	case side == 0:
 		name = "SetReadDeadline"
 		err = c.p[e].SetReadDeadline(t)
@@ -467,10 +470,10 @@ func (c *seqCase) setDL(e, side int, tg dlTarget, t time.Time) {
 	}
 }
 
-// pickTarget: SetDeadline is used only while both directions of the end are open
-// (what it does to the open side when the other side refuses is not specified).
+// pickTarget: SetDeadline is also used while one direction of the end is closed; the callers only use it for a
+// direction that is open.
 func (c *seqCase) pickTarget(e int) dlTarget {
-	if c.r.Chance(1, 4) && c.closed[0] == 0 && c.closed[1] == 0 {
+	if c.r.Chance(1, 4) {
 		return tBoth
 	}
 	return tSide
